@@ -430,14 +430,12 @@ impl<R: Round, const B: Word> FBig<R, B> {
             return Inexact(self.sign() * f32::INFINITY, Rounding::NoOp);
         }
 
-        let context = Context::<R>::new(24);
         if B != 2 {
+            let context = Context::<R>::new(24);
             let rounded: Rounded<Repr<2>> = context.convert_base(self.repr.clone());
             rounded.and_then(|v| v.into_f32_internal())
         } else {
-            context
-                .repr_round_ref(&self.repr)
-                .and_then(|v| v.into_f32_internal())
+            self.repr.binary_to_f32::<R>()
         }
     }
 
@@ -461,14 +459,12 @@ impl<R: Round, const B: Word> FBig<R, B> {
             return Inexact(self.sign() * f64::INFINITY, Rounding::NoOp);
         }
 
-        let context = Context::<HalfEven>::new(53);
         if B != 2 {
+            let context = Context::<HalfEven>::new(53);
             let rounded: Rounded<Repr<2>> = context.convert_base(self.repr.clone());
             rounded.and_then(|v| v.into_f64_internal())
         } else {
-            context
-                .repr_round_ref(&self.repr)
-                .and_then(|v| v.into_f64_internal())
+            self.repr.binary_to_f64::<HalfEven>()
         }
     }
 }
@@ -586,6 +582,71 @@ impl<R: Round> Context<R> {
 }
 
 impl<const B: Word> Repr<B> {
+    // Round a finite, nonzero binary number below the smallest normal number of an IEEE format to a
+    // multiple of the smallest subnormal number 2^min_exponent, with a single rounding in the mode R.
+    // Returns the multiplier (at most 2^(precision - 1) in magnitude).
+    fn round_to_subnormal<R: Round>(&self, min_exponent: isize) -> Rounded<IBig> {
+        if self.exponent >= min_exponent {
+            let shift = (self.exponent - min_exponent) as usize;
+            return Exact(shl_digits::<B>(&self.significand, shift));
+        }
+
+        let shift = (min_exponent - self.exponent) as usize;
+        if shift > self.digits() + 1 {
+            // the magnitude is less than a quarter of 2^min_exponent: every such number is rounded
+            // like a quarter (don't evaluate the possibly huge power 2^shift)
+            let adjust = R::round_fract::<B>(&IBig::ZERO, self.sign() * IBig::ONE, 2);
+            return Inexact(IBig::ZERO + adjust, adjust);
+        }
+
+        let (hi, lo) = split_digits::<B>(self.significand.clone(), shift);
+        if lo.is_zero() {
+            return Exact(hi);
+        }
+        let adjust = R::round_fract::<B>(&hi, lo, shift);
+        Inexact(hi + adjust, adjust)
+    }
+
+    // Convert a binary number to f32 with a single rounding in the mode R: to 24 bits if the number
+    // is at least the smallest normal number 2^-126, and to a multiple of 2^-149 below it (rounding
+    // to 24 bits first would round a subnormal result twice)
+    fn binary_to_f32<R: Round>(&self) -> Rounded<f32> {
+        assert!(B == 2);
+        debug_assert!(self.is_finite());
+
+        if self.significand.is_zero() || self.exponent + self.digits() as isize > -126 {
+            Context::<R>::new(24)
+                .repr_round_ref(self)
+                .and_then(|v| v.into_f32_internal())
+        } else {
+            let sign = self.sign();
+            self.round_to_subnormal::<R>(-149).map(|man| {
+                let man: i32 = man.try_into().unwrap();
+                // at most 2^23, the encoding is exact (and keeps the sign of a zero result)
+                sign * f32::encode(man.abs(), -149).value()
+            })
+        }
+    }
+
+    // Convert a binary number to f64 with a single rounding in the mode R, see binary_to_f32
+    fn binary_to_f64<R: Round>(&self) -> Rounded<f64> {
+        assert!(B == 2);
+        debug_assert!(self.is_finite());
+
+        if self.significand.is_zero() || self.exponent + self.digits() as isize > -1022 {
+            Context::<R>::new(53)
+                .repr_round_ref(self)
+                .and_then(|v| v.into_f64_internal())
+        } else {
+            let sign = self.sign();
+            self.round_to_subnormal::<R>(-1074).map(|man| {
+                let man: i64 = man.try_into().unwrap();
+                // at most 2^52, the encoding is exact (and keeps the sign of a zero result)
+                sign * f64::encode(man.abs(), -1074).value()
+            })
+        }
+    }
+
     // this method requires that the representation is already rounded to 24 binary bits
     fn into_f32_internal(self) -> Rounded<f32> {
         assert!(B == 2);
@@ -637,14 +698,12 @@ impl<const B: Word> Repr<B> {
             return Inexact(self.sign() * f32::INFINITY, Rounding::NoOp);
         }
 
-        let context = Context::<HalfEven>::new(24);
         if B != 2 {
+            let context = Context::<HalfEven>::new(24);
             let rounded: Rounded<Repr<2>> = context.convert_base(self.clone());
             rounded.and_then(|v| v.into_f32_internal())
         } else {
-            context
-                .repr_round_ref(self)
-                .and_then(|v| v.into_f32_internal())
+            self.binary_to_f32::<HalfEven>()
         }
     }
 
@@ -699,14 +758,12 @@ impl<const B: Word> Repr<B> {
             return Inexact(self.sign() * f64::INFINITY, Rounding::NoOp);
         }
 
-        let context = Context::<HalfEven>::new(53);
         if B != 2 {
+            let context = Context::<HalfEven>::new(53);
             let rounded: Rounded<Repr<2>> = context.convert_base(self.clone());
             rounded.and_then(|v| v.into_f64_internal())
         } else {
-            context
-                .repr_round_ref(self)
-                .and_then(|v| v.into_f64_internal())
+            self.binary_to_f64::<HalfEven>()
         }
     }
 
